@@ -50,7 +50,7 @@ def gen_cases(tier, seed):
                 spec.append({"p": "src/hardlink%d" % hk, "k": "hard", "target": r.choice(files_)})
         if r.random() < 0.4:
             spec.append({"p": "src/sparse", "k": "f", "size": 3 << 20, "seed": r.randrange(1, 1 << 30), "segs": [[0, 5000], [2 << 20, 9000]], "sync": True})
-        pol = r.choice(["none", "none", "cfr-short", "uspace", "fault", "cfr-eof", "vanish"])
+        pol = r.choice(["none", "none", "cfr-short", "uspace", "fault", "cfr-eof", "vanish", "full-dest"])
         if pol == "cfr-eof" and driver == "parfile":
             pol = "cfr-short"   # the cursor-based loop is only defined for sources that do not shrink
         rules = []
@@ -77,13 +77,18 @@ def gen_cases(tier, seed):
                 vanish = [v["size"], v["p"]]
             else:
                 pol = "none"
+        mount = None
+        if pol == "full-dest":
+            # the destination is a small filesystem of its own that fills up part-way (writes come back short, then fail)
+            mount = "size=%s" % r.choice(["64k", "128k", "200k", "300k"])
+            spec.append({"p": "src/filler", "k": "f", "size": r.choice([300000, 250001]), "seed": r.randrange(1, 1 << 30), "segs": None})
         sch = dict(r.choice(SCHEDS))
         sch["sched_seed"] = r.randrange(1 << 30)
         deref = pol == "none" and r.random() < 0.2
         if deref:
             spec = [e for e in spec if e["k"] != "l" or (e["k"] == "l" and not e["target"].startswith("no/") and not e["target"].startswith("@"))]
         onecpu = r.random() < 0.08
-        yield {"vanish": vanish, "onecpu": onecpu, "deref": deref, "spec": spec, "driver": driver, "updater": upd, "mode": mode, "bs": bs, "workers": 0 if onecpu or r.random() < 0.05 else r.choice([1, 2, 4, 8]), "policy": pol, "rules": rules,
+        yield {"mount": mount, "vanish": vanish, "onecpu": onecpu, "deref": deref, "spec": spec, "driver": driver, "updater": upd, "mode": mode, "bs": bs, "workers": 0 if onecpu or r.random() < 0.05 else r.choice([1, 2, 4, 8]), "policy": pol, "rules": rules,
                "plan": sch, "fs": "ext4"}
 
 
@@ -142,6 +147,23 @@ def run_case(case):
     with core.Sandbox(case["fs"], "c12") as sb:
         root = sb.root
         tree.materialize(root, case["spec"])
+        mp = None
+        if case.get("mount"):
+            mp = os.path.join(root, "dst")
+            os.mkdir(mp)
+            if not core.mount_tmpfs(mp, case["mount"]):
+                res["inconc"].append("mount-unavailable")
+                return res
+        try:
+            return _run_case_body(case, sb, res)
+        finally:
+            if mp:
+                core.umount(mp)
+
+
+def _run_case_body(case, sb, res):
+    if True:
+        root = sb.root
         pre = tree.snapshot(root)
         rules = []
         for x in case["rules"]:
